@@ -5,6 +5,7 @@
 import SolverzModel.Driver.C16
 import SolverzModel.Driver.C04
 import SolverzModel.Driver.C07
+import SolverzModel.Driver.C06
 open Solverz Solverz.Drv
 
 structure DState where
@@ -15,6 +16,7 @@ def stepLine (st : DState) (line : String) : DState × String :=
   | "c16" :: ws => let (h, o) := C16.step st.c16 ws; ({ st with c16 := h }, o)
   | "c04" :: ws => (st, C04.step ws)
   | "c07" :: ws => (st, C07.step ws)
+  | "c06" :: ws => (st, C06.step ws)
   | [] => (st, "")
   | _ => (st, "bad-op")
 
